@@ -59,7 +59,7 @@ func RunW1(p *Profile, plan, sched *simrt.Source, trace bool) *RunOut {
 	for _, c := range sc.Calls {
 		for id, pl := range c.Plan {
 			rd := sc.Rule(id)
-			if pl.Fire >= 0 && pl.Fire < len(rd.Secs) && rd.Secs[pl.Fire].Kind == SecUnb {
+			if pl.Fire >= 0 && pl.Fire < len(rd.Secs) && (rd.Secs[pl.Fire].Kind == SecUnb || rd.Secs[pl.Fire].Kind == SecUnbCont) {
 				cfg.StepCap = 5000000
 			}
 		}
